@@ -62,10 +62,26 @@ def make_case(prop, seed, i, tier):
     if rng.random() < FACILITY_RICH_SHARE.get(prop, 0.3):
         kw["facility_rich"] = True
     spec = G.gen_random(rng, G.profile(**kw))
-    # a share of the models is simulated twice on the same objects (the second run starts from the
-    # final state of the first one and must re-initialise everything)
-    resim = rng.random() < 0.2
-    return dict(prop=prop, i=i, source="random" + ("-frich" if kw.get("facility_rich") else "") + ("+resim" if resim else ""), spec=spec, resim=resim)
+    # a share of the models goes through a short history instead of one plain run:
+    #   resim      simulate() twice on the same objects (fresh monitors for the second run)
+    #   resume     simulate(max_time=k) + resume with both initialisations off (same monitors)
+    #   keeplog    simulate() + simulate(initialize_log_info=False) (logs appended; fresh monitors)
+    #   edit_resim simulate(), edit per-resource absence lists in place, simulate() again
+    #   edits      simulate(), then remove/insert_absence_time_list edits, then the log-only passes
+    r = rng.random()
+    variant = "single"
+    if r < 0.10:
+        variant = "resim"
+    elif r < 0.20:
+        variant = "resume"
+    elif r < 0.26 and not any(t["progress"] >= 1.0 for t in spec["tasks"]):
+        variant = "keeplog"
+    elif r < 0.32:
+        variant = "edit_resim"
+    elif r < 0.40 and prop in ("C07", "C13", "C14"):
+        variant = "edits"
+    return dict(prop=prop, i=i, source="random" + ("-frich" if kw.get("facility_rich") else "") + ("+" + variant if variant != "single" else ""),
+                spec=spec, variant=variant, vseed=rng.randrange(10 ** 9))
 
 
 def monitors_for(prop):
@@ -121,14 +137,18 @@ def nontrivial(prop, spec, c, project):
 
 
 def run_case(case):
+    import random
+    from . import instr as I
+    from .runner import exc_info
+    from .history import Hist
     prop, spec = case["prop"], case["spec"]
     res = Result(case)
-    m, tr, err = forward(spec, monitors_for(prop), order=case.get("order"))
-    res.absorb(tr, props=(prop,))
+    variant = case.get("variant", "single")
+    vr = random.Random(case.get("vseed", 0))
     res["source"] = case.get("source")
-    res.count("steps", tr.phase_counts.get("recorded", 0))
-    if err is not None:
-        res["aborted"] = err
+    res.count("variant." + variant)
+
+    def placement_exception(m, tr, err):
         if prop == "C13":
             stack = " ".join(err["stack"])
             if "remove_placed_component" in stack or "set_placed" in stack or "check_removing_placed_workplace" in stack:
@@ -137,14 +157,88 @@ def run_case(case):
                 if mon.any_split(m.project):
                     mech += ":assembly-split"
                 res.violate("C13", mech, "placement code raised %s: %s at %s" % (err["type"], err["msg"], err["where"]), stack=err["stack"])
-        return res
-    if case.get("resim"):
-        tr2, err2 = resimulate(m, spec, monitors_for(prop))
-        res.absorb(tr2, props=(prop,))
-        res.count("resimulated_runs")
-        if err2 is not None:
-            res["aborted"] = err2
+
+    if variant == "resume":
+        # one tracer and one set of monitors across pause and resume
+        I.install()
+        I.set_order(case.get("order") or I.default_order(spec))
+        m = B.build(spec)
+        started = M.StartedSnap()
+        tr = I.Tracer([started] + list(monitors_for(prop)(started)))
+        k = vr.choice([0, 1, 2, 3, 5, 8, 13])
+        err = None
+        with I.tracing(tr):
+            try:
+                B.run(m.project, spec, max_time=k)
+                B.run(m.project, spec, initialize_state_info=False, initialize_log_info=False)
+            except Exception as e:
+                err = exc_info(e)
+            if err is None:
+                tr.end(m.project)
+        res.absorb(tr, props=(prop,))
+        res.count("steps", tr.phase_counts.get("recorded", 0))
+        if err is not None:
+            res["aborted"] = err
+            placement_exception(m, tr, err)
             return res
+    else:
+        end_now = variant != "edits"
+        I.install()
+        I.set_order(case.get("order") or I.default_order(spec))
+        m = B.build(spec)
+        started = M.StartedSnap()
+        tr = I.Tracer([started] + list(monitors_for(prop)(started)))
+        err = None
+        with I.tracing(tr):
+            try:
+                B.run(m.project, spec)
+            except Exception as e:
+                err = exc_info(e)
+            if err is None and end_now:
+                tr.end(m.project)
+        if err is not None:
+            res.absorb(tr, props=(prop,))
+            res["aborted"] = err
+            placement_exception(m, tr, err)
+            return res
+        res.count("steps", tr.phase_counts.get("recorded", 0))
+        if variant == "edits":
+            h = Hist(spec, order=False, model=m)
+            T = m.project.time
+            for _ in range(vr.randint(1, 3)):
+                if vr.random() < 0.35:
+                    op = ["remove_abs"]
+                else:
+                    lo = 1 if prop == "C14" else 0   # see DESIGN C14: an inserted step 0 is not a simulated step
+                    pool = list(range(lo, max(lo + 1, m.project.time))) + list(m.project.absence_time_list)
+                    pool = [x for x in pool if x >= lo]
+                    op = ["insert_abs", sorted(set(vr.sample(pool, min(len(pool), vr.randint(1, 3)))))]
+                e = h.do(op)
+                res.count("edit_ops")
+                if e is not None:
+                    res["aborted"] = e
+                    res.absorb(tr, props=(prop,))
+                    return res
+            tr.end(m.project)
+        res.absorb(tr, props=(prop,))
+        if variant in ("resim", "keeplog", "edit_resim"):
+            kw = None
+            if variant == "keeplog":
+                kw = dict(initialize_log_info=False, max_time=m.project.time + spec["sim"]["max_time"])
+            if variant == "edit_resim":
+                rs = [w for tm in m.project.organization.team_list for w in tm.worker_list] + \
+                     [f for wp in m.project.organization.workplace_list for f in wp.facility_list]
+                for r_ in vr.sample(rs, min(len(rs), vr.randint(1, 3))):
+                    for x in vr.sample(range(0, 12), vr.randint(1, 3)):
+                        if x not in r_.absence_time_list:
+                            r_.absence_time_list.append(x)     # in place, as a user would
+            tr2, err2 = resimulate(m, spec, monitors_for(prop), sim_kw=kw)
+            res.absorb(tr2, props=(prop,))
+            res.count("resimulated_runs")
+            if err2 is not None:
+                res["aborted"] = err2
+                placement_exception(m, tr2, err2)
+                return res
     res["nontrivial"] = bool(nontrivial(prop, spec, res["counters"], m.project))
     res["status"] = int(m.project.status)
     res["time"] = m.project.time
